@@ -251,7 +251,9 @@ def run(ctx):
                     except Exception:
                         pass
             # bare numbers
-            for v in (0.0, 1.5, -2.25, 1e-12, 7):
+            # (numbers of every numeric type a user's arrays and loops produce: np.arange gives np.int64,
+            #  a table column np.float32, ...)
+            for v in (0.0, 1.5, -2.25, 1e-12, 7, np.int64(35), np.int32(40), np.float32(45.5), np.float64(51.25), np.arange(5, 80, 15)[3], True + 54):
                 if key in ("MHz",) and field == "high_frequency" and v <= 30:
                     continue
                 kw = {field: v}
@@ -260,7 +262,7 @@ def run(ctx):
                 ctx.count("units-bare")
                 try:
                     got = getattr(cls(**kw), field)
-                    if not (got == v and isinstance(got, float)):
+                    if not (got == float(v) and isinstance(got, float)):
                         ctx.violation("units", f"{cls.__name__}.{field} = {v!r} (bare number) stored as {got!r}", {"field": field, "value": v})
                 except Exception as e:
                     ctx.exception("units", f"{cls.__name__}.{field} = {v!r} (bare number) rejected", e, {"field": field})
